@@ -149,3 +149,18 @@ Lemma wake_exact_ok : forall st w, wk st w = WParked -> (dist st <> [] \/ live s
 Proof.
   intros st w _ [H|H]; unfold wake_exact; [destruct (dist st); [congruence|reflexivity] | rewrite H; apply orb_true_r].
 Qed.
+
+(* non-vacuity of the order theorem: one worker, two subscribers, two publishers; both logs are in
+   rendezvous order *)
+Definition order_schedule : list event :=
+  [ECall 0 (OpSub 0); ESubSend 0; ECall 1 (OpSub 1); ESubSend 1;
+   ECall 2 (OpPub 7); ECall 3 (OpPub 8); EPub 3; ELoopPush; EPub 2; ELoopPush;
+   ETake 0; ERangeNext 0 1; ESend 0 1; ERangeNext 0 0; ESend 0 0; ERangeEnd 0; EEnd 0;
+   ETake 0; ERangeNext 0 0; ESend 0 0; ERangeNext 0 1; ESend 0 1; ERangeEnd 0; EEnd 0; EPark 0].
+
+Example order_reached :
+  match run queue_cfg wake_exact init order_schedule with
+  | Some st => nw queue_cfg = 1 /\ pubd st = [8; 7] /\ rcv st 0 = [8; 7] /\ rcv st 1 = [8; 7]
+  | None => False
+  end.
+Proof. vm_compute. auto. Qed.
